@@ -172,7 +172,8 @@ from . import rules_hh as RH
       "is the Boyer-Moore table (count rises only on a match, by exactly the added amount; replacement only when the incoming "
       "amount wins, writing bytes+length+count together) (bm-table); no counter wraps in either direction (range, cap); stored "
       "lengths never exceed max_key_len so reported keys are stored keys (keylen-inv, ctor-range, report); reported counts are "
-      "the reader kernel's running max over matching cells (maxcount, same-kernel). Not decided: the induction count <= f(key) (hand argument).")
+      "the reader kernel's running max over matching cells (maxcount, same-kernel); in a shared block the tables and the bookkeeping "
+      "counters do not overlap (layout). Not decided: the induction count <= f(key) (hand argument).")
 def c03(ctx):
     F = facts_of(ctx)
     hh = [("heavyhitters", "HeavyHitters")]
@@ -199,6 +200,8 @@ def c03(ctx):
     RH.rule_cachekey(ctx)          # "never reports a key that was not added": what query() hands out is this sketch's own candidate set, rebuilt
     #                               into a fresh Counter and keyed on its own counters (a cache shared between objects reports another sketch's keys)
     RT.rule_observers(ctx, hh)
+    RT.rule_layout(ctx, hh)        # in a shared block the four tables and the bookkeeping counters must not overlap: a counter update that
+    #                               lands in key_lens changes the identity of stored keys (reported keys that were never added)
     plumbing(ctx)
     ctx.floor("window", 4)
     ctx.floor("keyid", 3)
@@ -462,7 +465,8 @@ def c02(ctx):
       "no zero register & EST <= 5m -> EST - bias; else EST), with strictness of each comparison checked on the path conditions; "
       "LC is m*ln(m/V), EST is alpha*m^2/sum(2^-r) over all registers, V = m - count_nonzero; alpha = 0.7213/(1+1.079/m); threshold, "
       "bias and raw-estimate are row p-7 of their tables with 7 <= p <= 16 enforced; the shipped tables have 10 rows of equal length, "
-      "strictly increasing raw estimates, begin where the thresholds end and end at 5m. Not decided: floating-point accuracy.")
+      "strictly increasing raw estimates, begin where the thresholds end and end at 5m; a shared block holds exactly m registers for "
+      "owner and attacher alike (layout), since the estimator sums over every register it is handed. Not decided: floating-point accuracy.")
 def c17(ctx):
     F = facts_of(ctx)
     hll = [("hyperloglog", "HyperLogLog")]
@@ -477,6 +481,8 @@ def c17(ctx):
     RT.rule_state_owner(ctx, hll, methods=("query",))    # C17 is about query()
     RA.rule_attr_type(ctx, hll, methods=("query",))      # p, m, alpha, the threshold and the tables reach the estimator at full width
     RA.rule_call_range(ctx, only=RA.class_kernels(facts_of(ctx), hll, ("query",)))
+    RT.rule_layout(ctx, hll)      # the estimator sums over every register it is handed: a shared block larger than m (or an attacher that
+    #                               views more than m bytes) gives an attached sketch extra registers and another estimate
     ctx.floor("wrapper-once", 3)
     ctx.floor("qtree", 6)
     ctx.floor("forms", 7)
